@@ -11,7 +11,8 @@ from .values import (And, Ite, Not, Or, SBool, SBytes, SInt, SObj, SReal, SSeq, 
 
 class LoopSpec:
     def __init__(self, inv=None, variant=None, havoc=None, types=None, keep=(), unroll=False, name=None,
-                 havoc_heap=True, bound=None, at_head=None, at_back=None, first_iteration=False):
+                 havoc_heap=True, bound=None, at_head=None, at_back=None, first_iteration=False, stale_locals=False):
+        self.stale_locals = stale_locals
         # first_iteration: execute ONE iteration from the actual entry state (no havoc, no invariant);
         # the path ends at the back edge.  Used for single-step lemmas (e.g. one whole frame).
         self.first_iteration = first_iteration
@@ -500,15 +501,26 @@ class VCRuntime:
             if v in spec.keep or (v.startswith("__vc") and not v.startswith("__vc_lc")):
                 continue
             if v not in L:
-                continue  # not bound at the loop head: cannot be live across the back edge of a well-formed loop
+                # not bound when the loop is entered.  In a later iteration it holds whatever the previous iteration
+                # assigned, and code that reads it before re-assigning it (a cache carried across iterations) sees
+                # that stale value: model it as a value about which nothing is known, unless the unit types it
+                # (opt-in per loop, `stale_locals=True`: for a loop whose body always assigns before it reads, the
+                # variable simply stays unbound and contracts may tell from its absence that the branch did not run)
+                if spec.stale_locals:
+                    if v in spec.types:
+                        new[v] = spec.types[v](f"{v}@loop{k}")
+                    else:
+                        new[v] = stubs.Opaque(f"{v}@loop{k} (value left over from the previous iteration)")
+                continue
             if v in spec.types:
                 new[v] = spec.types[v](f"{v}@loop{k}")
             elif v in L:
                 try:
                     new[v] = fresh_like(f"{v}@loop{k}", L[v])
                 except Unsupported:
-                    # value of unknown shape assigned in the loop: leave it unbound-like by poisoning
-                    new[v] = stubs.Poison(f"{v} after loop{k} havoc")
+                    # value of unknown shape assigned in the loop and not described by the unit's loop contract:
+                    # nothing is known about it after the havoc (every test on it may go either way)
+                    new[v] = stubs.Opaque(f"{v}@loop{k}")
         if spec.havoc is not None:
             spec.havoc(L)
         elif spec.havoc_heap:
